@@ -42,6 +42,52 @@ type c15Plan struct {
 	T     int      `json:"t"`
 	Op    int      `json:"op"`
 	Muts  []c15Mut `json:"muts"`
+	// Sparse: the genuine result is written the way another tool may write the same document - members whose value is
+	// empty are left out - and is submitted right after an unrelated result file full of recipients went through the same
+	// handler: what is posted is what this file says
+	Sparse bool `json:"sparse,omitempty"`
+}
+
+// sparseJSON re-encodes a JSON document without the members whose value is empty ("" / null / [] / {}): for a decoder
+// of fixed structure an absent member and an empty one are the same document.
+func sparseJSON(doc []byte) []byte {
+	var v any
+	if json.Unmarshal(doc, &v) != nil {
+		return doc
+	}
+	var strip func(x any) any
+	strip = func(x any) any {
+		switch t := x.(type) {
+		case map[string]any:
+			for k, val := range t {
+				val = strip(val)
+				empty := val == nil || val == ""
+				if a, ok := val.([]any); ok && len(a) == 0 {
+					empty = true
+				}
+				if m, ok := val.(map[string]any); ok && len(m) == 0 {
+					empty = true
+				}
+				if empty {
+					delete(t, k)
+				} else {
+					t[k] = val
+				}
+			}
+			return t
+		case []any:
+			for i := range t {
+				t[i] = strip(t[i])
+			}
+			return t
+		}
+		return x
+	}
+	out, err := json.Marshal(strip(v))
+	if err != nil {
+		return doc
+	}
+	return out
 }
 
 var c15Kinds = []string{
@@ -52,7 +98,8 @@ var c15Kinds = []string{
 
 func c15Gen(rt *rapid.T) c15Plan {
 	nt := rapid.SampledFrom([][2]int{{2, 2}, {3, 2}, {4, 3}}).Draw(rt, "nt")
-	p := c15Plan{Trace: rapid.SampledFrom([]string{"honest", "twobatches", "reinit"}).Draw(rt, "trace"), N: nt[0], T: nt[1], Op: rapid.IntRange(0, 100).Draw(rt, "op")}
+	p := c15Plan{Trace: rapid.SampledFrom([]string{"honest", "twobatches", "reinit"}).Draw(rt, "trace"), N: nt[0], T: nt[1], Op: rapid.IntRange(0, 100).Draw(rt, "op"),
+		Sparse: rapid.IntRange(0, 3).Draw(rt, "sparse") == 0}
 	k := rapid.IntRange(2, 12).Draw(rt, "nmuts")
 	for i := 0; i < k; i++ {
 		p.Muts = append(p.Muts, c15Mut{Kind: rapid.SampledFrom(c15Kinds).Draw(rt, "kind"), A: rapid.IntRange(0, 100000).Draw(rt, "a")})
@@ -139,6 +186,7 @@ func c15Run(t *testing.T, st *vstat.Stats, p c15Plan) (v *viol) {
 		boardOf := func() []storage.Message { msgs, _ := nd.View.GetMessages(0); return msgs }
 		nd.View.SetWatermark(1 << 30)
 
+		sparseNext := false
 		submit := func(label string, sub types.Operation) *viol {
 			ids0, pend0, err := pendingIDs(nd)
 			if err != nil {
@@ -146,6 +194,9 @@ func c15Run(t *testing.T, st *vstat.Stats, p c15Plan) (v *viol) {
 			}
 			b0 := boardOf()
 			file, _ := json.Marshal(sub)
+			if sparseNext {
+				file = sparseJSON(file)
+			}
 			serr := nd.SubmitResult(file)
 			ids1, _, _ := pendingIDs(nd)
 			b1 := boardOf()
@@ -294,11 +345,38 @@ func c15Run(t *testing.T, st *vstat.Stats, p c15Plan) (v *viol) {
 		}
 		// finally the genuine result (if still pending), then once more: only unaltered, only once
 		if ids, _, _ := pendingIDs(nd); containsStr(ids, genuine.ID) {
-			if vv := submit("genuine", genuine); vv != nil {
+			label := "genuine"
+			if p.Sparse {
+				// an unrelated result with as many addressed messages as the trace has goes through the handler first (it
+				// names an operation nobody knows and is refused) ...
+				var rich types.Operation
+				for _, r := range recs {
+					var o types.Operation
+					if json.Unmarshal(r.ResultFile, &o) == nil && len(o.ResultMsgs) >= len(rich.ResultMsgs) {
+						addressed := false
+						for _, m := range o.ResultMsgs {
+							addressed = addressed || m.RecipientAddr != ""
+						}
+						if addressed {
+							rich = o
+						}
+					}
+				}
+				if len(rich.ResultMsgs) > 0 {
+					rich.ID = fmt.Sprintf("%032x", 0xfeed)
+					file, _ := json.Marshal(rich)
+					_ = nd.SubmitResult(file)
+				}
+				// ... then the genuine result, written without its empty members
+				sparseNext, label = true, "genuine-sparse"
+			}
+			vv := submit(label, genuine)
+			sparseNext = false
+			if vv != nil {
 				v = vv
 				return
 			}
-			applied = append(applied, "genuine")
+			applied = append(applied, label)
 		}
 		b0 := len(boardOf())
 		if err := nd.SubmitResult(rec.ResultFile); err == nil {
